@@ -20,10 +20,13 @@ import time
 VERIF = os.path.dirname(os.path.dirname(os.path.abspath(__file__)))
 REPO = os.environ.get("VERIF_REPO", "/repo")
 COQ = os.path.join(VERIF, "coq")
-CACHE = os.path.join(VERIF, ".cache")
+CACHE = os.environ.get("VERIF_CACHE", os.path.join(VERIF, ".cache"))
 HARNESS = os.path.join(VERIF, "harness")
 TARGET = os.path.join(CACHE, "target")
 BIN = os.path.join(CACHE, "bin")
+# evidence/ and replays/ live in /verif; a development run against a scratch repository
+# (VERIF_REPO set, tools/seedtest.py) writes them next to its cache instead
+OUT = VERIF if REPO == "/repo" else CACHE
 GUARD = "rosu_pp_verif"
 NCPU = min(16, os.cpu_count() or 4)
 
@@ -302,7 +305,19 @@ def harness_build(features=(), profile="release", timeout=3000):
     """Builds the harness against /repo's current working tree with hooks on.
     Returns (binary path or None, log)."""
     os.makedirs(BIN, exist_ok=True)
-    lock = os.path.join(HARNESS, "Cargo.lock")
+    hdir = HARNESS
+    if REPO != "/repo":
+        # development aid (tools/seedtest.py): run the same harness against a scratch copy
+        # of the repository; registered commands always use /repo itself
+        hdir = os.path.join(CACHE, "harness-src")
+        shutil.rmtree(hdir, ignore_errors=True)
+        shutil.copytree(HARNESS, hdir)
+        ct = open(os.path.join(hdir, "Cargo.toml")).read().replace('path = "/repo"', f'path = "{REPO}"')
+        open(os.path.join(hdir, "Cargo.toml"), "w").write(ct)
+        cfgp = os.path.join(hdir, ".cargo", "config.toml")
+        if os.path.exists(cfgp):
+            open(cfgp, "w").write("[net]\noffline = true\n")
+    lock = os.path.join(hdir, "Cargo.lock")
     if not os.path.exists(lock):
         shutil.copy(os.path.join(REPO, "Cargo.lock"), lock)
     cmd = ["cargo", "build", "--offline"]
@@ -311,7 +326,7 @@ def harness_build(features=(), profile="release", timeout=3000):
     if features:
         cmd += ["--features", ",".join(features)]
     env = {"RUSTFLAGS": f"--cfg {GUARD}", "CARGO_TARGET_DIR": TARGET}
-    rc, out, err, dt = sh(cmd, cwd=HARNESS, timeout=timeout, env=env)
+    rc, out, err, dt = sh(cmd, cwd=hdir, timeout=timeout, env=env)
     if rc != 0:
         return None, (out + err)[-4000:]
     src = os.path.join(TARGET, "release" if profile == "release" else "debug", "vh")
@@ -430,10 +445,18 @@ class Check:
             self.cov["samples"].append(s)
 
     def replay_path(self, suffix="json"):
-        d = os.path.join(VERIF, "replays", self.pid)
+        d = os.path.join(OUT, "replays", self.pid)
         os.makedirs(d, exist_ok=True)
         self.replay_n += 1
         return os.path.join(d, f"{self.seed}-{self.tier}-{self.replay_n}.{suffix}")
+
+    def known_class(self, cls):
+        """True (and counted) when [cls] is the class of a listed open finding of this property."""
+        for f in self.findings:
+            if cls and cls == f.get("class"):
+                self.known_hits[f["id"]] = self.known_hits.get(f["id"], 0) + 1
+                return True
+        return False
 
     def violation(self, what, replay_obj):
         """A concrete failing input against the implementation."""
@@ -473,8 +496,8 @@ class Check:
             "violations": len(self.violations),
         }
         self.cov["known_findings_hit"] = self.known_hits
-        os.makedirs(os.path.join(VERIF, "evidence"), exist_ok=True)
-        json.dump(ev, open(os.path.join(VERIF, "evidence", f"{self.pid}.json"), "w"), indent=1, default=str)
+        os.makedirs(os.path.join(OUT, "evidence"), exist_ok=True)
+        json.dump(ev, open(os.path.join(OUT, "evidence", f"{self.pid}.json"), "w"), indent=1, default=str)
         for f in self.findings:
             print(f"KNOWN-FINDING: property={self.pid} {f['id']}: {f['description']}"
                   f" (hit {self.known_hits.get(f['id'], 0)}x this run)")
